@@ -95,6 +95,10 @@ def generate(seed, tier):
     # focus keys recur across processes and positions
     n_focus = rng.randint(3, 8)
     focus = [(rng.randrange(len(pool)), rng.randrange(4)) for _ in range(n_focus)]
+    # the same source under other options (a result cached per source, ignoring the
+    # options, shows only when both keys occur in both orders)
+    for i, o in list(focus[: rng.randint(1, 3)]):
+        focus.append((i, (o + rng.randint(1, 3)) % 4))
     if with_imports:
         imps = [i for i, s in enumerate(pool) if "import " in s]
         focus += [(rng.choice(imps), rng.randrange(2)) for _ in range(2)]
